@@ -6,6 +6,21 @@ ROOT = os.path.dirname(os.path.dirname(os.path.abspath(__file__)))
 
 # id -> (engine, level, technique, level text, level note)
 T = {
+ "C02": ("refmodel", "exploration", "runtime monitor: reference-model comparator over generated sparse-mode histories with reopen points",
+         "Seeded single-bucket histories with segment sizes of a few hundred bytes (most keys in sealed segments reached through the on-disk index files), Close/Open every ~15 transactions; Get/GetAll/RangeScan/PrefixScan (no limit and huge limit) compared with the model.",
+         "Single filename-safe bucket; the ambiguous bucket+key concatenation is C04."),
+ "C08": ("refmodel", "exploration", "runtime monitor: self-comparison of full observations before Close and after Open over unconstrained generated histories",
+         "No model: any history of calls that returned success (incl. multi-operation transactions, no-op operations, failed transactions) must read back identically after a clean reopen, in every index mode that supports the structures used.",
+         "The observation universe covers every bucket/key the generator can write."),
+ "C09": ("crashfs", "fault_enumeration", "fault enumeration: every crash/torn image of monitored workloads + exactly-full segments + clean-close points of dirty histories, opened with the real Open",
+         "Enumerates every file-mutation point the verif hook reports for each workload and every torn prefix at record-field boundaries; 24 exactly-full directories per case; oracle is Open's error/panic only.",
+         "Crash model as C10. Sparse-mode crash images are a known finding (KF-SPARSE-CRASH-OPEN)."),
+ "C10": ("crashfs", "fault_enumeration", "fault enumeration over a recorded file-mutation event log: every crash point and torn prefix -> image -> real Open -> full observation vs model of the committed prefix",
+         "One execution yields every process-crash image of that execution (no process is killed: the directory content at the event IS the crash image); each is recovered by the real code and compared with the model states allowed by the property.",
+         "Page cache survives a process crash; torn write = prefix. Sparse-mode images are a known finding (KF-SPARSE-CRASH); RAM-mode images must all pass."),
+ "C11": ("crashfs", "fault_enumeration", "fault enumeration: durable-shadow power-loss images (per-file content at last completed sync, plus subsets/torn prefixes of unsynced writes) at every event, recovered by the real Open",
+         "The event log carries every sync; dropping or misplacing a Sync changes the shadow and shows as a lost committed transaction at the first commit after it.",
+         "Disk model as stated in the property; a file's sync makes its directory entry durable. Sparse-mode images are a known finding (KF-SPARSE-POWER)."),
  "C05": ("refmodel", "exploration", "runtime monitor: Redis-list reference model; bounded-exhaustive state x operation x argument sweep on the exported list type plus one-operation-per-transaction histories with full observation",
          "Exhaustive for the bounded scope on ds/list.List (781 states x 3 construction paths x all arguments, all short sequences), random long sequences, and transaction-level histories with reopen; every call result and resulting list compared with the model.",
          "Model tolerates the documented error-instead-of-clamp choices; a panic is never tolerated."),
